@@ -24,6 +24,7 @@ type PropDef struct {
 	Assume     []string // A-* identifiers used
 	Inventory  []string // inventory checks (see inventory.go)
 	Technique  string
+	Level      string // evidence level (default "proof")
 	Notes      []string
 }
 
@@ -57,6 +58,8 @@ func loadProp(id string) (*PropDef, error) {
 			p.Assume = append(p.Assume, rest)
 		case "inventory":
 			p.Inventory = append(p.Inventory, rest)
+		case "level":
+			p.Level = rest
 		case "technique":
 			p.Technique = rest
 		case "note":
@@ -286,12 +289,6 @@ func runCheck(id, tier string, seed int, overlay map[string][]byte, writeEvidenc
 		suffix := writeReplay(e, rp, id, g)
 		violations = append(violations, fmt.Sprintf("VIOLATION property=%s replay=%s obligation=%s status=%s%s", id, rp, g.Name, g.Status, suffix))
 	}
-	// a listed finding that no longer fails is stale: say so (not an alarm)
-	for obl, kf := range knownByObl {
-		if !seenKnown[obl] {
-			fmt.Printf("NOTE: known finding %s (%s) no longer fails; the entry in known_findings.json is stale\n", kf.ID, obl)
-		}
-	}
 	for _, b := range bounded {
 		for _, v := range b.Violations {
 			if kfID, what, ok := matchKnownBounded(known, id, v.Key); ok {
@@ -310,6 +307,37 @@ func runCheck(id, tier string, seed int, overlay map[string][]byte, writeEvidenc
 			os.WriteFile(rp, []byte(v), 0o644)
 			violations = append(violations, fmt.Sprintf("VIOLATION property=%s replay=%s inventory=%s no-failing-input-found", id, rp, r.Name))
 		}
+		for _, v := range r.Keyed {
+			okey := "inventory:" + r.Name + ":" + v.Key
+			if kf, ok := knownByObl[okey]; ok {
+				seenKnown[okey] = true
+				failedKnown = append(failedKnown, okey)
+				knownReported = append(knownReported, fmt.Sprintf("KNOWN-FINDING: property=%s %s: %s [%s]", id, kf.ID, kf.What, okey))
+				continue
+			}
+			rp := filepath.Join(replayDir, sanitizeFile("inventory_"+r.Name+"_"+v.Key)+".txt")
+			os.WriteFile(rp, []byte("obligation: "+okey+"\n\n"+v.Detail+"\n"), 0o644)
+			violations = append(violations, fmt.Sprintf("VIOLATION property=%s replay=%s obligation=%s no-failing-input-found", id, rp, okey))
+		}
+		// each inventory counts as one obligation of the check (discharged when it reports nothing unlisted)
+		nObl++
+		if len(r.Violations) == 0 {
+			bad := false
+			for _, v := range r.Keyed {
+				if _, ok := knownByObl["inventory:"+r.Name+":"+v.Key]; !ok {
+					bad = true
+				}
+			}
+			if !bad {
+				nDis++
+			}
+		}
+	}
+	// a listed finding that no longer fails is stale: say so (not an alarm)
+	for obl, kf := range knownByObl {
+		if !seenKnown[obl] && !strings.HasPrefix(obl, "bounded:") {
+			fmt.Printf("NOTE: known finding %s (%s) no longer fails; the entry in known_findings.json is stale\n", kf.ID, obl)
+		}
 	}
 	for _, l := range knownReported {
 		fmt.Println(l)
@@ -321,6 +349,9 @@ func runCheck(id, tier string, seed int, overlay map[string][]byte, writeEvidenc
 	if writeEvidence {
 		ev := map[string]any{
 			"property_id": id, "tier": tier, "seed": seed, "level": "proof", "wall_s": wall, "violations": len(violations),
+		}
+		if prop.Level != "" {
+			ev["level"] = prop.Level
 		}
 		var trusted []string
 		for _, a := range prop.Assume {
@@ -349,7 +380,7 @@ func runCheck(id, tier string, seed int, overlay map[string][]byte, writeEvidenc
 		}
 		var invs []any
 		for _, r := range inv {
-			invs = append(invs, map[string]any{"name": r.Name, "items": r.Items, "violations": len(r.Violations)})
+			invs = append(invs, map[string]any{"name": r.Name, "items": r.Items, "violations": len(r.Violations) + len(r.Keyed)})
 		}
 		cov := map[string]any{
 			"obligations": nObl, "discharged": nDis,
@@ -382,6 +413,7 @@ func runCheck(id, tier string, seed int, overlay map[string][]byte, writeEvidenc
 			"integers":                  "Go integers are fixed-width bit-vectors with wrap-around (no mathematical-integer abstraction) unless a function is marked ints=math",
 			"back_ends":                 "cvc5 1.0 leads; z3 5.1, z3 5.1 (MBQI only) and z3 4.8.12 are raced when it is undecided; thorough tier runs all and requires agreement",
 			"technique":                 prop.Technique,
+			"explanation":               prop.Technique + " " + strings.Join(prop.Notes, " "),
 			"notes":                     prop.Notes,
 		}
 		ev["coverage"] = cov
